@@ -39,6 +39,7 @@ pub const CLASSES: &[&str] = &[
     "cross-gateway",
     "empty-batch",
     "resubmit-earlier-accepted",
+    "known-batch-forged-proof",
 ];
 
 pub struct World {
@@ -463,7 +464,7 @@ fn own(reason: &str, prop: &str) -> bool {
 
 pub fn run(ctx: &Ctx, rep: &mut Report) {
     let total = ctx.universes(2400, 200000);
-    let per_universe = 34;
+    let per_universe = 36;
     let mut seen_classes = std::collections::BTreeSet::new();
     for uni in ctx.my_universes(total) {
         let mut rng = ctx.rng_for(uni);
@@ -504,6 +505,47 @@ pub fn run(ctx: &Ctx, rep: &mut Report) {
                     rep.foreign("mid-history-rotation-refused");
                     break;
                 }
+            }
+            if class == "known-batch-forged-proof" {
+                // a batch that is already approved, submitted again with a proof that proves nothing
+                let earlier: Vec<Vec<MMessage>> = accepted.iter().filter(|a| !a.0 && !a.2.is_empty()).map(|a| a.2.clone()).collect();
+                if earlier.is_empty() {
+                    continue;
+                }
+                let msgs = rng.pick(&earlier).clone();
+                let dh = approve_data_hash(&msgs);
+                let m = w.g.model.clone();
+                let plan = match rng.below(3) {
+                    0 => {
+                        let s = gen_wellformed_set(&mut rng, &mut w.ring, 3);
+                        plan_honest(&w.ring, &m.domain, &s, &dh, &all_slots(&s))
+                    }
+                    1 => {
+                        let s = m.sets.last().unwrap().clone();
+                        let sub = one_short_subset(&mut rng, &s);
+                        plan_honest(&w.ring, &m.domain, &s, &dh, &sub)
+                    }
+                    _ => {
+                        let s = m.sets.last().unwrap().clone();
+                        plan_honest(&w.ring, &m.domain, &s, &dh, &[])
+                    }
+                };
+                let expect = w.g.model.expect_approve(&msgs, &plan);
+                rep.step(format!("known batch with forged proof ({}) expect={:?}", plan.desc, expect));
+                let o = w.g.do_approve(&mut w.u, &msgs, &plan);
+                seen_classes.insert(class);
+                rep.eval(class, &format!("known-forged|{:?}|{}", expect, o.ok()), true);
+                if o.leak.is_some() {
+                    rep.violation("rejected-submission-left-trace:known-batch-forged-proof", o.leak.clone().unwrap());
+                    break;
+                }
+                if let (Must::Fail(r), true) = (&expect, o.ok()) {
+                    if own(r, &ctx.prop) {
+                        rep.violation(&format!("accepted:known-batch-forged-proof:{}", r), format!("an already approved batch was accepted again with a proof that must fail: {}", r));
+                    }
+                    break;
+                }
+                continue;
             }
             if class == "resubmit-earlier-accepted" {
                 // byte-identical resubmission of something accepted earlier in this history
@@ -743,7 +785,7 @@ pub fn run(ctx: &Ctx, rep: &mut Report) {
         }
     }
     rep.notes.insert("required".into(), json!(CLASSES));
-    rep.notes.insert("rule".into(), json!("per universe: gateway with retention in {0,1,2,5}, 1-3 initial sets, 0-6 honest rotations, optionally a second gateway with another domain separator and the same sets; 34 submissions (approve_messages or standalone validate_proof) interleaved with further honest rotations, every one of 27 classes at least once per universe (honest all/subset/exact-threshold/old-retained; one-short; signatures over another domain/command/batch/set; wrong key; bit flip; extra invalid signature; every slot independently unsigned/valid/invalid; unsigned or insufficient valid prefix followed by garbage signatures; declared set with dropped/added/duplicated/swapped signer, changed weight/threshold/nonce, kept or re-signed; never installed; beyond retention; cross-gateway replay; empty batch; byte-identical resubmission of a submission accepted earlier in the same history, possibly after its signer set left the retention window); distinct = (class, entry point, expectation, outcome, signer count, retention, epoch gap)"));
+    rep.notes.insert("rule".into(), json!("per universe: gateway with retention in {0,1,2,5}, 1-3 initial sets, 0-6 honest rotations, optionally a second gateway with another domain separator and the same sets; 34 submissions (approve_messages or standalone validate_proof) interleaved with further honest rotations, every one of 28 classes at least once per universe (honest all/subset/exact-threshold/old-retained; one-short; signatures over another domain/command/batch/set; wrong key; bit flip; extra invalid signature; every slot independently unsigned/valid/invalid; unsigned or insufficient valid prefix followed by garbage signatures; declared set with dropped/added/duplicated/swapped signer, changed weight/threshold/nonce, kept or re-signed; never installed; beyond retention; cross-gateway replay; empty batch; byte-identical resubmission of a submission accepted earlier in the same history, possibly after its signer set left the retention window; an already approved batch with a proof by a never-installed set, one signer short, or unsigned); distinct = (class, entry point, expectation, outcome, signer count, retention, epoch gap)"));
     rep.notes.insert(
         "classes_seen".into(),
         json!(seen_classes.iter().collect::<Vec<_>>()),
